@@ -2,6 +2,7 @@ import Secp.Gen.Formulas
 import Secp.Proofs.AbsSound
 import Secp.Proofs.Slices
 import Secp.Proofs.SliceSound
+import Secp.Proofs.SliceLimb
 /-
   Props/C16 — no input makes point or signature arithmetic wrap or compare denormalised.
 
@@ -210,6 +211,28 @@ theorem loop_unroll (cs : List Contract) (pre post : List SItem) (bodies : List 
     (trace : List (List SItem)) (htr : ∀ b ∈ trace, b ∈ bodies) :
     ∃ σ', absS cs (pre ++ trace.flatten ++ post) σ [] = some σ' ∧ Secp.Proofs.SliceSound.Cover σ' σf :=
   Secp.Proofs.SliceSound.loop_unroll cs pre post bodies hpre hpost hb σ σf hne hacc trace htr
+
+
+/-- LIMB-LEVEL MEANING of the sliced interpreter (loop-free paths).  `ExecS … strict` is the paired limb / value execution
+    of a sliced path: field operations by the REGENERATED limb kernels (`stepL`) and by their value-level meaning (`stepF`),
+    `assume` taken on both sides, `havoc` and the results of contract calls replaced by ARBITRARY limb values realising the
+    stated abstract value.  With `strict = true` every `chk` must hold on the limbs (the value read by PutBytes / Bytes /
+    IsOddBit / IsGtOrEqPrimeMinusOrder, or stored in a returned PublicKey, is within its magnitude and normalised) and every
+    callee's precondition must hold on the limbs.  The theorem: if `absS` accepts the path, then for ALL limb registers
+    realising the input contract EVERY lax execution is a strict one, and it ends with limbs and values still related —
+    no field operation wrapped, every comparison saw normalised operands. -/
+theorem absS_limb_sound (cs : List Contract) (bools : List Bool) (items : List SItem) (σ σ' : AState)
+    (rl : Secp.Model.LRegs) (rv : Regs) (s' : Secp.Model.LRegs × Regs)
+    (hir : Secp.Proofs.SliceLimb.SInRange rl.length items)
+    (habs : absS cs items σ [] = some σ') (hrel : Secp.Model.Rel σ rl rv)
+    (hex : Secp.Proofs.SliceLimb.ExecS cs bools false items (rl, rv) s') :
+    Secp.Proofs.SliceLimb.ExecS cs bools true items (rl, rv) s' ∧ Secp.Model.Rel σ' s'.1 s'.2 :=
+  Secp.Proofs.SliceLimb.absS_limb_sound cs bools items σ σ' rl rv s' hir habs hrel hex
+
+/-- on an accepted path the limb-level and the value-level outcome of every predicate agree -/
+theorem assume_agree (σ : AState) (c : FCond) (rl : Secp.Model.LRegs) (rv : Regs) (bools : List Bool)
+    (hrel : Secp.Model.Rel σ rl rv) (hc : condA σ c = true) : Secp.Model.condL rl bools c = condF rv bools c :=
+  Secp.Proofs.SliceLimb.assume_agree σ c rl rv bools hrel hc
 
 /-- non-vacuity of the sliced interpreter: Verify's step 8 without Normalize is rejected, with it accepted;
     a loop whose body raises the magnitude is rejected -/
